@@ -105,7 +105,7 @@ func (ei *resourceInformer) putEvent(ev kemtypes.KubeEvent) {
 	}
 }
 
-func (ei *resourceInformer) createSharedInformer() error {
+func (ei *resourceInformer) createSharedInformer(loadExisted bool) error {
 	var err error
 
 	// discover GroupVersionResource for informer
@@ -145,8 +145,10 @@ func (ei *resourceInformer) createSharedInformer() error {
 		LabelSelector: ei.ListOptions.LabelSelector,
 	}
 
-	if err = ei.loadExistedObjects(); err != nil {
-		return fmt.Errorf("load existing objects: %w", err)
+	if loadExisted {
+		if err = ei.loadExistedObjects(); err != nil {
+			return fmt.Errorf("load existing objects: %w", err)
+		}
 	}
 
 	return nil
